@@ -12,11 +12,14 @@ import (
 )
 
 type aType struct {
-	Kind string `json:"k"`           // prim ref seq set
-	Prim string `json:"p,omitempty"` // Sysl primitive as written
-	Ref  string `json:"r,omitempty"` // type name in the same application
-	Elem *aType `json:"e,omitempty"`
-	Opt  bool   `json:"o,omitempty"`
+	Kind   string   `json:"k"`            // prim ref seq set inline
+	Prim   string   `json:"p,omitempty"`  // Sysl primitive as written
+	Ref    string   `json:"r,omitempty"`  // type name in the same application ("Other.Thing": a type of another application)
+	FK     string   `json:"fk,omitempty"` // ref only, inside a !table: the referenced field (`Cust.cid`)
+	Elem   *aType   `json:"e,omitempty"`
+	Opt    bool     `json:"o,omitempty"`
+	Fields []aField `json:"f,omitempty"` // inline: a nested (in-place) type, compiled to the type "<Outer>.<field>"
+	Nested bool     `json:"nested,omitempty"` // ref only, set by the oracle's expandNested: Ref is the full name of a nested type
 }
 type aField struct {
 	Name string `json:"n"`
@@ -28,10 +31,12 @@ type aEnumItem struct {
 }
 type aTypeDef struct {
 	Name   string      `json:"n"`
-	Kind   string      `json:"k"` // tuple enum alias
+	Kind   string      `json:"k"` // tuple enum alias table union map
 	Fields []aField    `json:"f,omitempty"`
 	Enum   []aEnumItem `json:"e,omitempty"`
 	Alias  *aType      `json:"a,omitempty"`
+	Alts   []string    `json:"u,omitempty"`  // union: the alternatives (type names)
+	MapKey string      `json:"mk,omitempty"` // map: the json_map_key attribute (a field name)
 }
 type aParam struct {
 	Name string `json:"n"`
@@ -280,6 +285,95 @@ func (g *gen) app(name string, style string, big bool) aApp {
 	return a
 }
 
+// kinds stream (deepen round 3): an application of the main stream plus !table (primary key, foreign key `T.f`, reference
+// to a !type, optional attributes), !union, json_map_key maps, nested (in-place) types and references into another
+// application, each used by fields, parameters and returns
+func (g *gen) appKinds(name string, style string) aApp {
+	a := g.app(name, style, false)
+	var recs []string // names of !type / !table: what a union may list and a table may refer to
+	firstTuple := -1
+	for i, td := range a.Types {
+		if td.Kind == "tuple" {
+			recs = append(recs, td.Name)
+			if firstTuple < 0 {
+				firstTuple = i
+			}
+		}
+	}
+	var added []string
+	if g.r.Chance(7, 10) {
+		cust := aTypeDef{Name: "Cust", Kind: "table", Fields: []aField{{"cid", aType{Kind: "prim", Prim: "int"}}}}
+		for _, fn := range g.pickDistinct([]string{"name", "zip", "Alpha", "since", "b"}, 1+g.r.Intn(4)) {
+			cust.Fields = append(cust.Fields, aField{fn, g.typ(nil, false, true, true)})
+		}
+		if len(recs) > 0 && g.r.Bool() {
+			cust.Fields = append(cust.Fields, aField{"item", aType{Kind: "ref", Ref: g.pick(recs), Opt: g.r.Bool()}})
+		}
+		if g.r.Chance(1, 3) {
+			e := aType{Kind: "prim", Prim: "string"}
+			cust.Fields = append(cust.Fields, aField{"tags", aType{Kind: "seq", Elem: &e, Opt: g.r.Bool()}})
+		}
+		a.Types = append(a.Types, cust)
+		added = append(added, "Cust")
+		if g.r.Bool() {
+			ord := aTypeDef{Name: "Ord", Kind: "table", Fields: []aField{{"oid", aType{Kind: "prim", Prim: "int"}},
+				{"cust", aType{Kind: "ref", Ref: "Cust", FK: "cid", Opt: g.r.Bool()}}, {"n", aType{Kind: "prim", Prim: "decimal", Opt: g.r.Bool()}}}}
+			a.Types = append(a.Types, ord)
+			added = append(added, "Ord")
+		}
+	}
+	recs = append(recs, added...)
+	if len(recs) > 0 && g.r.Chance(2, 5) {
+		a.Types = append(a.Types, aTypeDef{Name: "Either", Kind: "union", Alts: g.pickDistinct(recs, 1+g.r.Intn(3))})
+		added = append(added, "Either")
+	}
+	if g.r.Chance(2, 5) {
+		m := aTypeDef{Name: "Dict", Kind: "map", MapKey: "key", Fields: []aField{{"key", aType{Kind: "prim", Prim: "string"}}}}
+		for _, fn := range g.pickDistinct([]string{"val", "Alpha", "n", "who"}, 1+g.r.Intn(3)) {
+			m.Fields = append(m.Fields, aField{fn, g.typ(recs, false, true, false)})
+		}
+		a.Types = append(a.Types, m)
+		added = append(added, "Dict")
+	}
+	if firstTuple >= 0 {
+		td := &a.Types[firstTuple]
+		if g.r.Chance(2, 5) {
+			in := aType{Kind: "inline"}
+			for _, fn := range g.pickDistinct([]string{"x", "Y", "z", "w"}, 1+g.r.Intn(3)) {
+				in.Fields = append(in.Fields, aField{fn, g.typ(nil, false, true, true)})
+			}
+			td.Fields = append(td.Fields, aField{Name: "inner", T: in})
+		}
+		if g.r.Chance(1, 4) {
+			td.Fields = append(td.Fields, aField{Name: "far", T: aType{Kind: "ref", Ref: "Other.Thing", Opt: g.r.Bool()}})
+		}
+		// the new kinds are used: as field types ...
+		for _, n := range added {
+			if g.r.Bool() {
+				td.Fields = append(td.Fields, aField{Name: "use" + n, T: aType{Kind: "ref", Ref: n, Opt: g.r.Bool()}})
+			}
+		}
+	}
+	// ... as return and body types
+	for i := range a.Endpoints {
+		ep := &a.Endpoints[i]
+		if len(added) == 0 {
+			break
+		}
+		for r := range ep.Rets {
+			if ep.Rets[r].T != nil && ep.Rets[r].T.Kind == "ref" && g.r.Bool() {
+				ep.Rets[r].T.Ref = g.pick(added)
+			}
+		}
+		for pi := range ep.Params {
+			if ep.Params[pi].In == "body" && ep.Params[pi].T.Kind == "ref" && g.r.Bool() {
+				ep.Params[pi].T.Ref = g.pick(added)
+			}
+		}
+	}
+	return a
+}
+
 // ---------------------------------------------------------------- rendering
 
 func typeText(t aType) string {
@@ -289,6 +383,11 @@ func typeText(t aType) string {
 		s = t.Prim
 	case "ref":
 		s = t.Ref
+		if t.FK != "" {
+			s += "." + t.FK
+		}
+	case "inline":
+		s = "(inline)"
 	case "seq":
 		s = "sequence of " + typeText(*t.Elem)
 	case "set":
@@ -378,7 +477,33 @@ func renderApp(b *strings.Builder, a aApp) {
 				b.WriteString("        ...\n")
 			}
 			for _, f := range t.Fields {
+				if f.T.Kind == "inline" {
+					fmt.Fprintf(b, "        %s <:\n", f.Name)
+					for _, g := range f.T.Fields {
+						fmt.Fprintf(b, "            %s <: %s\n", g.Name, typeText(g.T))
+					}
+					continue
+				}
 				fmt.Fprintf(b, "        %s <: %s\n", f.Name, typeText(f.T))
+			}
+		case "map":
+			fmt.Fprintf(b, "    !type %s [json_map_key=%q]:\n", t.Name, t.MapKey)
+			for _, f := range t.Fields {
+				fmt.Fprintf(b, "        %s <: %s\n", f.Name, typeText(f.T))
+			}
+		case "table":
+			fmt.Fprintf(b, "    !table %s:\n", t.Name)
+			for i, f := range t.Fields {
+				pk := ""
+				if i == 0 {
+					pk = " [~pk]"
+				}
+				fmt.Fprintf(b, "        %s <: %s%s\n", f.Name, typeText(f.T), pk)
+			}
+		case "union":
+			fmt.Fprintf(b, "    !union %s:\n", t.Name)
+			for _, alt := range t.Alts {
+				fmt.Fprintf(b, "        %s\n", alt)
 			}
 		case "enum":
 			fmt.Fprintf(b, "    !enum %s:\n", t.Name)
@@ -436,6 +561,22 @@ func corpus() []aApp {
 			{Name: "Omega", Kind: "tuple"},
 			{Name: "Zeta", Kind: "alias", Alias: pt(seq(prim("string", false), false))}},
 			Endpoints: []aEndpoint{{Method: "GET", Path: "/a", Rets: []aRet{{"200", pt(ref("Alpha", false))}}}}},
+		// deepen round 3: every new type kind once, deterministic
+		{Name: "Kinds", Version: "1.0", Style: "sysl", Types: []aTypeDef{
+			{Name: "Item", Kind: "tuple", Fields: []aField{{"id", prim("int", false)},
+				{"inner", aType{Kind: "inline", Fields: []aField{{"a", prim("int", false)}, {"b", prim("string", true)}}}},
+				{"cust", ref("Cust", true)}, {"either", ref("Either", false)}, {"dict", ref("Dict", true)}}},
+			{Name: "Cust", Kind: "table", Fields: []aField{{"cid", prim("int", false)}, {"name", prim("string", true)}, {"zip", prim("string", false)},
+				{"item", ref("Item", false)}, {"maybe", ref("Item", true)}, {"tags", seq(prim("string", false), true)}}},
+			{Name: "Ord", Kind: "table", Fields: []aField{{"oid", prim("int", false)}, {"cust", aType{Kind: "ref", Ref: "Cust", FK: "cid"}},
+				{"prev", aType{Kind: "ref", Ref: "Ord", FK: "oid", Opt: true}}, {"n", prim("decimal", true)}}},
+			{Name: "Either", Kind: "union", Alts: []string{"Item", "Cust"}},
+			{Name: "Dict", Kind: "map", MapKey: "key", Fields: []aField{{"key", prim("string", false)}, {"val", prim("int", true)}, {"who", ref("Cust", false)}}}},
+			Endpoints: []aEndpoint{{Method: "GET", Path: "/custs", Rets: []aRet{{"ok", pt(seq(ref("Cust", false), false))}}},
+				{Method: "POST", Path: "/ords", Params: []aParam{{"o", "body", ref("Ord", false)}}, Rets: []aRet{{"ok", pt(ref("Either", false))}, {"404", nil}}}}},
+		{Name: "CrossApp", Version: "1.0", Style: "sysl", Types: []aTypeDef{
+			{Name: "Item", Kind: "tuple", Fields: []aField{{"id", prim("int", false)}, {"far", ref("Other.Thing", false)}, {"fars", seq(ref("Other.Thing", false), true)}}}},
+			Endpoints: []aEndpoint{{Method: "GET", Path: "/items", Rets: []aRet{{"ok", pt(ref("Item", false))}}}}},
 		{Name: "Imported", Version: "1.0", Style: "imported", Types: []aTypeDef{
 			{Name: "Obj", Kind: "tuple", Fields: []aField{{"name", prim("string", true)}, {"id", prim("int", false)}, {"parts", seq(ref("Obj", false), true)}}}},
 			Endpoints: []aEndpoint{{Method: "POST", Path: "/test/{key}", Params: []aParam{
